@@ -3,8 +3,10 @@ C16 — LDM operations are atomic under concurrent providers, consumers and main
 Property theorems only.  Model: `FlexModel/Conc/Sched.lean`, `FlexModel/Conc/LdmConc.lean` (tied to the source by
 `Generated/Locks.lean`); helper lemmas in `FlexModel/Conc/LdmLemmas.lean`.
 Every theorem quantifies over ALL thread lists (any number of threads and operations) and ALL schedules.
+The instruction-level justification of "a lock section is one block" is in `Props/C16Reduction.lean`.
 -/
 import FlexModel.Conc.LdmLemmas
+import FlexModel.Conc.LdmLinear
 
 namespace Props.C16
 open FlexModel.Conc FlexModel.Conc.Ldm
@@ -14,20 +16,120 @@ abbrev final (threads : List (List Op)) (sched : List ThreadId) : LSt := (run (s
 theorem anyUpd (threads : List (List Op)) : ∀ ops ∈ threads, ∀ op ∈ ops, op.isPlainUpd = true → true = true :=
   fun _ _ _ _ _ => rfl
 
-/-! ## single-block operations are linearisable -/
+/-! ## linearisability -/
 
-/-- the state reached under any schedule is the sequential composition of the executed blocks, in execution order:
-every operation that consists of one block (each DictionaryDataBase method, each registry / subscription section)
-takes effect atomically at that block -/
-theorem single_block_ops_linearizable (threads : List (List Op)) (sched : List ThreadId) :
+/-- (model fact, true by construction of `Sched.step` – NOT the linearisability claim) the state reached under any
+schedule is the composition of the executed BLOCKS in execution order … -/
+theorem state_is_fold_of_blocks (threads : List (List Op)) (sched : List ThreadId) :
     final threads sched = applyAll (trace (sys threads) sched) {} :=
   run_eq_trace (sys threads) sched
 
-/-- … and the execution order is an interleaving of the threads' program orders -/
-theorem linearisation_order (threads : List (List Op)) (sched : List ThreadId) (u : ThreadId) :
+/-- … and that order is an interleaving of the threads' block sequences (program order) -/
+theorem block_order_is_program_order (threads : List (List Op)) (sched : List ThreadId) (u : ThreadId) :
     tracedBy u (trace (sys threads) sched) ++ blocksOf (progOf (run (sys threads) sched) u)
       = blocksOf (progOf (sys threads) u) :=
   trace_thread_order (sys threads) sched u
+
+/-- **Linearisability of whole OPERATIONS** (each compiled to 2-3 blocks in 2 lock sections): register, deregister a
+provider, add, request, subscribe (and the pre-C14 consumer deregistration).  For every thread list made of these
+operations, in which operation ids are not shared between threads (`Owned`) and every application is registered,
+deregistered and used by ONE thread (`AppOwned`: no (de)registration of an application overlaps an operation of that
+application in another thread – the complement of known finding C16-KF2), and for EVERY schedule that finishes all
+threads there is a sequential order `π` of the whole operations such that
+ * `π` is a merge of the threads' operation lists (program order kept),
+ * executing the operations of `π` one after the other, each atomically (`seqRun`), gives EXACTLY the final state of the
+   concurrent run – all responses, query results, the store, identifiers, registries, subscriptions,
+ * `π` is the order in which the operations' ACTION blocks (the store / registry / subscription block, `Txn.lp`) were
+   executed (`commits`; see `linearisation_points`) – a block of the operation itself, executed between its
+   invocation and its return; `operations_realtime_order`: `π` is consistent with real-time order.
+Proof: `FlexModel/Conc/LdmSerial.lean` (`serialise`: the registration check is a right-mover, the response a left-mover,
+two pending lists) and `LdmLinear.lean` (`commute_mk_bk`: 30 commutations). -/
+theorem operations_linearizable (threads : List (List Op)) (hlin : LinOps threads)
+    (owner ownerP ownerC : Nat → ThreadId) (ho : Owned owner threads) (ha : AppOwned ownerP ownerC threads)
+    (sched : List ThreadId) (hfin : finished (run (sys threads) sched) = true) :
+    ∃ π : List (ThreadId × Op),
+      (∀ u, (π.filter (fun c => c.1 == u)).map (·.2) = (threads[u]?).getD []) ∧
+      final threads sched = seqRun (π.map (·.2)) {} ∧
+      π.map (fun p => (p.1, txnD p.2)) = Serial.commits (threads.map txns) (trace (sys threads) sched) :=
+  ldm_linearizable threads hlin owner ownerP ownerC ho ha sched hfin
+
+/-- **Linearisation points.**  Along the execution the linearisation order grows by at most one operation per executed
+block, and when it grows the executed block IS the action block of the operation that enters (a block of that
+operation, executed by its own thread): an operation that has returned is in the order, one that has not been invoked is
+not – the order is consistent with real-time order. -/
+theorem linearisation_points (threads : List (List Op)) (hlin : LinOps threads)
+    (owner ownerP ownerC : Nat → ThreadId) (ho : Owned owner threads) (ha : AppOwned ownerP ownerC threads)
+    (sched : List ThreadId) (hfin : finished (run (sys threads) sched) = true)
+    (tr1 : List (Serial.Ev LSt)) (e : Serial.Ev LSt) (tr2 : List (Serial.Ev LSt))
+    (hsplit : trace (sys threads) sched = tr1 ++ e :: tr2) :
+    Serial.commits (threads.map txns) (tr1 ++ [e]) = Serial.commits (threads.map txns) tr1 ∨
+    ∃ y, Serial.commits (threads.map txns) (tr1 ++ [e]) = Serial.commits (threads.map txns) tr1 ++ [(e.1, y)] ∧ e.2 = y.lp :=
+  ldm_linearisation_points threads hlin owner ownerP ownerC ho ha sched hfin tr1 e tr2 hsplit
+
+/-- **Real-time order.**  Split the schedule anywhere (`s1 ++ s2`).  The operations linearised by the end of `s1`
+(`π1`) are a PREFIX of the final linearisation order; every operation of thread `u` that has RETURNED by the end of `s1`
+(the number `r` of blocks `u` still has to execute is at most the number of blocks of its later operations) is in `π1`,
+and every operation of `u` NOT YET INVOKED at the end of `s1` (all its blocks are still to be executed) is not.  Hence an
+operation that returned before another one was invoked precedes it in the linearisation order. -/
+theorem operations_realtime_order (threads : List (List Op)) (hlin : LinOps threads) (s1 s2 : List ThreadId)
+    (hfin : finished (run (sys threads) (s1 ++ s2)) = true) (u : ThreadId) (ops : List Op) (hu : threads[u]? = some ops) :
+    let π1 := Serial.commits (threads.map txns) (trace (sys threads) s1)
+    let m := (π1.filter (fun c => c.1 == u)).length
+    let r := (blocksOf (progOf (run (sys threads) s1) u)).length
+    (∃ rest, Serial.commits (threads.map txns) (trace (sys threads) (s1 ++ s2)) = π1 ++ rest) ∧
+    (∀ j, j < ops.length → r ≤ blocksAfter ops (j + 1) → j < m) ∧ (∀ j, j < ops.length → blocksAfter ops j ≤ r → m ≤ j) :=
+  ldm_realtime threads hlin s1 s2 hfin u ops hu
+
+-- non-vacuity: three threads (two providers with their own applications, a consumer), a schedule that interleaves the
+-- registration checks and the actions of different operations, all hypotheses hold and the run finishes
+def linDemo : List (List Op) :=
+  [[.regP 1, .add 1 1 6, .add 2 1 8], [.regC 2, .qry 3 2, .sub 4 2 201], [.regP 3, .add 5 3 4, .deregP 6 3]]
+example : LinOps linDemo := by
+  intro ops hops op hop
+  simp only [linDemo, List.mem_cons, List.not_mem_nil, or_false] at hops
+  rcases hops with rfl | rfl | rfl <;> simp at hop <;> rcases hop with rfl | rfl | rfl <;> rfl
+example : Owned (fun o => if o ≤ 2 then 0 else if o ≤ 4 then 1 else 2) linDemo := by
+  intro t ops ht op hop o ho
+  rcases t with _ | _ | _ | t <;> simp [linDemo] at ht <;> subst ht <;> simp at hop <;>
+    rcases hop with rfl | rfl | rfl <;> simp [Op.ids] at ho <;> subst ho <;> rfl
+example : AppOwned (fun a => if a = 1 then 0 else 2) (fun _ => 1) linDemo := by
+  intro t ops ht op hop
+  rcases t with _ | _ | _ | t <;> simp [linDemo] at ht <;> subst ht <;> simp at hop <;>
+    rcases hop with rfl | rfl | rfl <;> simp [Op.pApp, Op.cApp]
+example : finished (run (sys linDemo)
+    ([0, 0, 0, 1, 1, 1, 2, 2, 2] ++ [0, 0, 0, 1, 1, 1, 2, 2, 2] ++ [0, 1, 2, 0, 1, 2, 0, 1, 2] ++ List.replicate 12 0 ++
+      List.replicate 12 1 ++ List.replicate 12 2 ++ List.replicate 6 0)) = true := by decide +kernel
+-- `seqRun` is what one thread executing the operations one after the other computes
+example : (seqRun [.regP 1, .add 1 1 6, .regC 2, .qry 3 2] {}).rows 3 =
+    (final [[.regP 1, .add 1 1 6, .regC 2, .qry 3 2]] (List.replicate 30 0)).rows 3 := by decide +kernel
+
+/-- inside the excluded region (known finding C16-KF2): an `add` overlapping the deregistration of its provider by
+ANOTHER thread.  The add passes its registration check, the deregistration completes, a request issued afterwards by
+the deregistering thread sees an empty store – and then the add inserts … -/
+def kf2Threads : List (List Op) := [[.regP 1, .add 1 1 4], [.regC 2, .deregP 2 1, .qry 3 2]]
+theorem gate_check_then_act_witness :
+    let s := final kf2Threads
+      (List.replicate 3 0 ++ List.replicate 3 1 ++ List.replicate 3 0 ++ List.replicate 14 1 ++ List.replicate 3 0)
+    s.resp 1 = [0] ∧ s.resp 2 = [1] ∧ s.resp 3 = [1] ∧ s.rows 3 = [] ∧ s.db = [(0, 4)] ∧ s.prov 1 = false := by
+  decide +kernel
+
+/-- … which none of the 10 sequential orders of the five operations (program order kept) produces: the add succeeds
+(`resp 1 = [0]`) and the deregistration finds the provider (`resp 2 = [1]`) only if the add precedes the
+deregistration – and then the request, which follows the deregistration in its thread, sees the object -/
+theorem gate_check_then_act_not_sequential :
+    let a1 := Op.regP 1; let a2 := Op.add 1 1 4; let b1 := Op.regC 2; let b2 := Op.deregP 2 1; let b3 := Op.qry 3 2
+    ∀ π ∈ [[a1, a2, b1, b2, b3], [a1, b1, a2, b2, b3], [a1, b1, b2, a2, b3], [a1, b1, b2, b3, a2], [b1, a1, a2, b2, b3],
+            [b1, a1, b2, a2, b3], [b1, a1, b2, b3, a2], [b1, b2, a1, a2, b3], [b1, b2, a1, b3, a2], [b1, b2, b3, a1, a2]],
+      ¬ ((seqRun π {}).resp 1 = [0] ∧ (seqRun π {}).resp 2 = [1] ∧ (seqRun π {}).rows 3 = []) := by
+  decide +kernel
+
+/-- … and the hypothesis of `operations_linearizable` indeed fails there: application 1 is used by two threads -/
+theorem gate_witness_outside_hypothesis : ¬ ∃ ownerP ownerC, AppOwned ownerP ownerC kf2Threads := by
+  rintro ⟨ownerP, ownerC, h⟩
+  have h0 := (h 0 [.regP 1, .add 1 1 4] rfl (.regP 1) (by simp)).1 1 rfl
+  have h1 := (h 1 [.regC 2, .deregP 2 1, .qry 3 2] rfl (.deregP 2 1) (by simp)).1 1 rfl
+  rw [h0] at h1
+  cases h1
 
 /-- the source has exactly that structure: every database method is one section of the database lock, every
 registry / subscription section one section of the service lock, and all accesses are inside them -/
@@ -38,6 +140,26 @@ theorem source_single_blocks :
     Generated.Locks.allUnder .LDMService_data_consumer_its_aid .LDMService__lock = true ∧
     Generated.Locks.allUnder .LDMService_subscriptions .LDMService__lock = true ∧
     Generated.Locks.allUnder .LDMService_last_checked_subscriptions_time .LDMService__lock = true := guarded_ldm
+
+/-- the block SEQUENCES of the multi-block operations are the synchronisation skeletons of the source (lock sections,
+loops and lock-taking calls in source order, regenerated by harness/gen_ldm_shape.py): e.g. the attendance pass takes
+its subscription snapshot first and reads the consumer registry INSIDE the loop, once per subscription; `search` runs
+inside one database-lock section; LDMMaintenanceThread wraps every maintenance-level writer in its lock -/
+theorem source_skeletons :
+    Generated.LdmShape.skeleton_LDMService_attend_subscriptions =
+      ["with _lock", "end", "loop", "call get_data_consumer_its_aid", "call search_data", "call order_search_results",
+       "call process_notifications", "endloop", "loop", "call remove_subscription", "endloop"] ∧
+    Generated.LdmShape.skeleton_InterfaceLDM3_update_provider_data =
+      ["call exists", "call get_provider_data", "call update_provider_data"] ∧
+    Generated.LdmShape.skeleton_LDMMaintenance_update_provider_data = ["call get", "call update"] ∧
+    Generated.LdmShape.skeleton_InterfaceLDM3_delete_provider_data = ["call exists", "call del_provider_data_by_id"] ∧
+    (Generated.Locks.calls .DictionaryDataBase_search).all (fun c => c.1 == [.DictionaryDataBase__lock]) = true :=
+  ⟨skeletons.1, skeletons.2.2.2.2.2.2.1, skeletons.2.2.2.2.2.2.2.1, skeletons.2.2.2.2.2.2.2.2.2.1, search_locked.1⟩
+
+/-- no method stores into an object fetched from the data base (the in-memory back-end hands out the stored objects
+themselves): a record changes only through an `update` block under the database lock, and an object already returned
+to a consumer never changes -/
+theorem source_no_inplace_mutation : Generated.LdmShape.inplace = [] := no_inplace_mutation
 
 /-! ## identifiers, adds -/
 
@@ -80,8 +202,11 @@ theorem no_lost_or_duplicated_add (threads : List (List Op)) (h : noPlainUpd thr
 
 /-! ## queries -/
 
-/-- a query (`all` / `search` block) returns exactly the rows present at its block instant -/
-theorem query_snapshot (o : Nat) (s : LSt) : (dbAll o s).rows o = s.db ∧ (dbAll o s).db = s.db := by
+/-- (model fact, by definition of `dbAll`) a query block returns exactly the rows present at its instant and changes
+nothing; what ties it to the code is `search_locked` / `blocks_db`: `all` and `search` are ONE database-lock section.
+The interface-level statement is part of `operations_linearizable`: a request is one atomic step of the sequential
+order, so its result is the store of one instant between its invocation and its return -/
+theorem query_block_is_snapshot (o : Nat) (s : LSt) : (dbAll o s).rows o = s.db ∧ (dbAll o s).db = s.db := by
   simp [dbAll]
 
 /-! ## registrations and subscriptions -/
@@ -112,7 +237,7 @@ theorem registration_only_by_its_blocks (p : Bool) (f : LSt → LSt) (hf : Blk p
   | dbUpdate o i v _ => simp [dbUpdate] at hne
   | dbUpdateIfPresent o i v => unfold dbUpdateIfPresent at hne; split at hne <;> simp at hne
   | dbRemoveId o i => unfold dbRemoveId at hne; split at hne <;> simp at hne
-  | gcRemove o => unfold gcRemove dbRemoveVal at hne; split at hne <;> simp at hne
+  | gcRemove o => exact absurd (dbRemoveVal_prov o _ s ▸ rfl) hne
   | dbAll o => simp [dbAll] at hne
   | provHas o a' => simp [provHas] at hne
   | consAdd a' => simp [consAdd] at hne
@@ -122,8 +247,8 @@ theorem registration_only_by_its_blocks (p : Bool) (f : LSt → LSt) (hf : Blk p
   | consHasReg o => simp [consHas] at hne
   | subAdd sid => simp [subAdd] at hne
   | subsCopy o => simp [subsCopy] at hne
-  | subRemove sid => unfold subRemove at hne; split at hne <;> simp at hne
-  | subRemoveReg o => simp only [subRemove] at hne; split at hne <;> simp at hne
+  | subRemove o sid => exact absurd (subRemove_prov o sid s ▸ rfl) hne
+  | subRemoveReg o => exact absurd (subRemove_prov o _ s ▸ rfl) hne
   | lastChkReg o => simp [lastChkSection] at hne
   | setResp o g => simp [setResp] at hne
   | gcPick o => unfold gcPick at hne; split at hne <;> simp at hne
@@ -174,21 +299,33 @@ theorem lock_order_acyclic :
 theorem ldm_no_deadlock (threads : List (List Op)) (sched : List ThreadId) : ¬ Deadlock (run (sys threads) sched) :=
   FlexModel.Conc.no_deadlock rank (sys threads) (WF_sys threads) sched
 
-/-- no block of the model raises: the only statements that could (`del database[key]` inside `remove`,
-`subscriptions.remove(sub)`) are guarded by a membership test in the same lock section -/
-theorem no_block_raises (threads : List (List Op)) (sched : List ThreadId) : (final threads sched).err = 0 := by
-  refine ldm_inv true (fun s => s.err = 0) threads (anyUpd threads) rfl ?_ sched
+/-- **No operation raises.** The model contains the two raising statements of the code - `del self.database[key]`
+(KeyError on an absent key, inside `DictionaryDataBase.remove`) and `self.subscriptions.remove(sub)` (ValueError on an
+absent element, inside `remove_subscription`); each sets `err` of its operation when it raises (`dbDelKey`, `subDrop`).
+Under EVERY schedule no operation's `err` is ever set: the scan / membership test and the raising statement are in the
+same lock section, i.e. one block (`dbRemoveVal_spec`, `subRemove_spec`) -/
+theorem no_block_raises (threads : List (List Op)) (sched : List ThreadId) (o : Nat) : (final threads sched).err o = 0 := by
+  refine ldm_inv true (fun s => ∀ o, s.err o = 0) threads (anyUpd threads) (fun _ => rfl) ?_ sched o
   intro f hf
   induction hf with
   | whenReg o slot v f _ ih => exact whenReg_preserves _ o slot v f ih
   | dbUpdateIfPresent o i v => intro x h; unfold dbUpdateIfPresent; split <;> exact h
   | dbRemoveId o i => intro x h; unfold dbRemoveId; split <;> exact h
-  | gcRemove o => intro x h; unfold gcRemove dbRemoveVal; split <;> exact h
-  | subRemove sid => intro x h; unfold subRemove; split <;> exact h
-  | subRemoveReg o => intro x h; simp only [subRemove]; split <;> exact h
+  | gcRemove o => intro x h; exact dbRemoveVal_preserves (fun s => ∀ o, s.err o = 0) _ _ x h (fun _ _ hx => hx) (fun _ _ hx _ => hx)
+  | subRemove o sid =>
+    intro x h; exact subRemove_preserves (fun s => ∀ o, s.err o = 0) _ _ x h (fun _ _ _ hx => hx) (fun _ hx _ => hx)
+  | subRemoveReg o =>
+    intro x h; exact subRemove_preserves (fun s => ∀ o, s.err o = 0) _ _ x h (fun _ _ _ hx => hx) (fun _ hx _ => hx)
   | gcPick o => intro x h; unfold gcPick; split <;> exact h
   | subPick o => intro x h; unfold subPick; split <;> exact h
   | removePick o => intro x h; unfold removePick; split <;> exact h
   | _ => intro x h; exact h
+
+/-- the raising branches are live: when the membership test and `list.remove` are NOT one block (two threads
+cancelling the same subscription, test and removal as separate steps) the second removal raises ValueError -/
+theorem raises_without_the_section :
+    let s0 : LSt := { subs := [101] }
+    (subDrop 2 101 (subDrop 1 101 (subTest 2 101 (subTest 1 101 s0)))).err 2 = 2 ∧
+    (dbDelKey 2 (dbDelKey 1 (dbScanVal 2 7 (dbScanVal 1 7 ({ db := [(0, 7)] } : LSt))))).err 2 = 1 := by decide
 
 end Props.C16
